@@ -99,7 +99,7 @@ Proof.
   specialize (Hb _ _ eq_refl). apply IH; lia.
 Qed.
 
-Lemma dec_S f b : dec (S f) b =
+Lemma dec_S f d b : dec (S f) d b =
     match b with
     | [] => Err EEmpty
     | ty :: _ =>
@@ -124,15 +124,17 @@ Lemma dec_S f b : dec (S f) b =
         dec_lenpref b (fun s c => Ok (PBlob s, c))
       else if ty =? pv_tag_list then
         if len b <? 5 then Err EInvalidLength else
+        if too_deep d then Err ETooDeep else
         match sub b 1 4 with
         | None => Panic
-        | Some l4 => list_loop (dec f) (S f) (unle l4) b 5 []
+        | Some l4 => list_loop (dec f (d + 1)) (S f) (unle l4) b 5 []
         end
       else if ty =? pv_tag_map then
         if len b <? 5 then Err EInvalidLength else
+        if too_deep d then Err ETooDeep else
         match sub b 1 4 with
         | None => Panic
-        | Some l4 => map_loop (dec f) (S f) (unle l4) b 5 []
+        | Some l4 => map_loop (dec f (d + 1)) (S f) (unle l4) b 5 []
         end
       else Err (EUnknownType ty)
     end.
@@ -152,9 +154,9 @@ Proof.
   destruct (sub_total b 5 (unle s)) as (s2 & Hs2 & _); [lia|]. rewrite Hs2. apply Hk; lia.
 Qed.
 
-Lemma dec_good fuel : forall b, (length b < fuel)%nat -> good b (dec fuel b).
+Lemma dec_good fuel : forall d b, (length b < fuel)%nat -> good b (dec fuel d b).
 Proof.
-  induction fuel as [|f IH]; intros b Hb; [lia|].
+  induction fuel as [|f IH]; intros d b Hb; [lia|].
   rewrite dec_S. destruct b as [|ty t] eqn:Eb; [apply good_err|]. rewrite <- Eb in *.
   assert (Hl : 1 <= len b) by (subst b; rewrite len_cons; lia).
   destruct (ty =? pv_tag_null); [apply good_ok; lia|].
@@ -171,14 +173,14 @@ Proof.
   destruct (ty =? pv_tag_datetime); [apply dec_i64_good|].
   destruct (ty =? pv_tag_blob).
   { apply dec_lenpref_good. intros s c Hc. apply good_ok; lia. }
-  assert (Hrec : forall rest, len rest < len b -> good rest (dec f rest)).
+  assert (Hrec : forall rest, len rest < len b -> good rest (dec f (d + 1) rest)).
   { intros rest Hr. apply IH. unfold len in *. lia. }
   destruct (ty =? pv_tag_list).
-  { destruct (len b <? 5) eqn:E; [apply good_err|].
+  { destruct (len b <? 5) eqn:E; [apply good_err|]. destruct (too_deep d); [apply good_err|].
     destruct (sub_total b 1 4) as (s & Hs & _); [lia|]. rewrite Hs.
     apply list_loop_good; [exact Hrec|lia|unfold len in *; lia]. }
   destruct (ty =? pv_tag_map).
-  { destruct (len b <? 5) eqn:E; [apply good_err|].
+  { destruct (len b <? 5) eqn:E; [apply good_err|]. destruct (too_deep d); [apply good_err|].
     destruct (sub_total b 1 4) as (s & Hs & _); [lia|]. rewrite Hs.
     apply map_loop_good; [exact Hrec|lia|unfold len in *; lia]. }
   apply good_err.
@@ -364,37 +366,39 @@ Ltac tagr := repeat match goal with |- context [N.eqb ?a ?b] =>
    let r := eval vm_compute in (N.eqb a b) in
    replace (N.eqb a b) with r by (vm_compute; reflexivity) end.
 
-Lemma dec_S_null f t : dec (S f) (pv_tag_null :: t) = Ok (PNull, 1).
+Lemma dec_S_null f d t : dec (S f) d (pv_tag_null :: t) = Ok (PNull, 1).
 Proof. rewrite dec_S. tagr. reflexivity. Qed.
-Lemma dec_S_bool f t : dec (S f) (pv_tag_bool :: t) =
+Lemma dec_S_bool f d t : dec (S f) d (pv_tag_bool :: t) =
   if len (pv_tag_bool :: t) <? 2 then Err EInvalidLength else
   match nth_error (pv_tag_bool :: t) 1 with Some x => Ok (PBool (negb (x =? 0)), 2) | None => Panic end.
 Proof. rewrite dec_S. tagr. reflexivity. Qed.
-Lemma dec_S_int f t : dec (S f) (pv_tag_int :: t) = dec_i64 (pv_tag_int :: t) PInt.
+Lemma dec_S_int f d t : dec (S f) d (pv_tag_int :: t) = dec_i64 (pv_tag_int :: t) PInt.
 Proof. rewrite dec_S. tagr. reflexivity. Qed.
-Lemma dec_S_float f t : dec (S f) (pv_tag_float :: t) =
+Lemma dec_S_float f d t : dec (S f) d (pv_tag_float :: t) =
   if len (pv_tag_float :: t) <? 9 then Err EInvalidLength else
   match sub (pv_tag_float :: t) 1 8 with Some s => Ok (PFloat (unle s), 9) | None => Panic end.
 Proof. rewrite dec_S. tagr. reflexivity. Qed.
-Lemma dec_S_str f t : dec (S f) (pv_tag_string :: t) =
+Lemma dec_S_str f d t : dec (S f) d (pv_tag_string :: t) =
   dec_lenpref (pv_tag_string :: t) (fun s c => if utf8_valid s then Ok (PStr s, c) else Err EInvalidUtf8).
 Proof. rewrite dec_S. tagr. reflexivity. Qed.
-Lemma dec_S_datetime f t : dec (S f) (pv_tag_datetime :: t) = dec_i64 (pv_tag_datetime :: t) PDateTime.
+Lemma dec_S_datetime f d t : dec (S f) d (pv_tag_datetime :: t) = dec_i64 (pv_tag_datetime :: t) PDateTime.
 Proof. rewrite dec_S. tagr. reflexivity. Qed.
-Lemma dec_S_blob f t : dec (S f) (pv_tag_blob :: t) = dec_lenpref (pv_tag_blob :: t) (fun s c => Ok (PBlob s, c)).
+Lemma dec_S_blob f d t : dec (S f) d (pv_tag_blob :: t) = dec_lenpref (pv_tag_blob :: t) (fun s c => Ok (PBlob s, c)).
 Proof. rewrite dec_S. tagr. reflexivity. Qed.
-Lemma dec_S_list f t : dec (S f) (pv_tag_list :: t) =
+Lemma dec_S_list f d t : dec (S f) d (pv_tag_list :: t) =
   if len (pv_tag_list :: t) <? 5 then Err EInvalidLength else
+  if too_deep d then Err ETooDeep else
   match sub (pv_tag_list :: t) 1 4 with
   | None => Panic
-  | Some l4 => list_loop (dec f) (S f) (unle l4) (pv_tag_list :: t) 5 []
+  | Some l4 => list_loop (dec f (d + 1)) (S f) (unle l4) (pv_tag_list :: t) 5 []
   end.
 Proof. rewrite dec_S. tagr. reflexivity. Qed.
-Lemma dec_S_map f t : dec (S f) (pv_tag_map :: t) =
+Lemma dec_S_map f d t : dec (S f) d (pv_tag_map :: t) =
   if len (pv_tag_map :: t) <? 5 then Err EInvalidLength else
+  if too_deep d then Err ETooDeep else
   match sub (pv_tag_map :: t) 1 4 with
   | None => Panic
-  | Some l4 => map_loop (dec f) (S f) (unle l4) (pv_tag_map :: t) 5 []
+  | Some l4 => map_loop (dec f (d + 1)) (S f) (unle l4) (pv_tag_map :: t) 5 []
   end.
 Proof. rewrite dec_S. tagr. reflexivity. Qed.
 
@@ -403,29 +407,48 @@ Proof. intros H Hin. rewrite forallb_forall in H. auto. Qed.
 Lemma sub_cons1 t s r n : n = len s -> sub (t :: s ++ r) 1 n = Some s.
 Proof. intros. change (t :: s ++ r) with ([t] ++ s ++ r). now apply sub_app. Qed.
 
-Definition RT (v : pv) : Prop := wf v = true -> forall f rest,
-  (length (encode v) <= f)%nat -> dec (S f) (encode v ++ rest) = Ok (v, len (encode v)).
+(* the nesting limit with the constants resolved (the code has the limit) *)
+Lemma too_deep_eq d : too_deep d = (pv_max_nesting <=? d).
+Proof. reflexivity. Qed.
+Lemma nesting_ok_eq v : nesting_ok v = (cdepth v <=? pv_max_nesting).
+Proof. reflexivity. Qed.
+
+Lemma cdepth_list_in l x : In x l -> cdepth x + 1 <= cdepth (PList l).
+Proof.
+  cbn [cdepth]. induction l as [|y l IH]; [contradiction|]. cbn [fold_right].
+  intros [->|H]; [lia|]. specialize (IH H). lia.
+Qed.
+Lemma cdepth_map_in m k x : In (k, x) m -> cdepth x + 1 <= cdepth (PMap m).
+Proof.
+  cbn [cdepth]. induction m as [|[k' y] m IH]; [contradiction|]. cbn [fold_right].
+  intros [H|H]; [injection H as -> ->; lia|]. specialize (IH H). lia.
+Qed.
+
+(* [d]: number of lists/maps the value sits in; it must fit under the limit with its own nesting *)
+Definition RT (v : pv) : Prop := wf v = true -> forall f d rest,
+  (length (encode v) <= f)%nat -> d + cdepth v <= pv_max_nesting ->
+  dec (S f) d (encode v ++ rest) = Ok (v, len (encode v)).
 
 Lemma rt_null : RT PNull.
-Proof. unfold RT. intros _ f rest Hf. apply dec_S_null. Qed.
+Proof. unfold RT. intros _ f d rest Hf Hd. apply dec_S_null. Qed.
 Lemma rt_bool b : RT (PBool b).
 Proof.
-  unfold RT. intros _ f rest Hf. cbn [encode app]. rewrite dec_S_bool. rewrite !len_cons.
+  unfold RT. intros _ f d rest Hf Hd. cbn [encode app]. rewrite dec_S_bool. rewrite !len_cons.
   destruct (1 + (1 + len rest) <? 2) eqn:E; [lia|]. cbn [nth_error]. destruct b; reflexivity.
 Qed.
 Lemma rt_int z : RT (PInt z).
 Proof.
-  unfold RT. intros Hwf f rest Hf. cbn [encode app]. rewrite dec_S_int, dec_i64_rt by exact Hwf.
+  unfold RT. intros Hwf f d rest Hf Hd. cbn [encode app]. rewrite dec_S_int, dec_i64_rt by exact Hwf.
   rewrite len_cons, len_le. reflexivity.
 Qed.
 Lemma rt_datetime z : RT (PDateTime z).
 Proof.
-  unfold RT. intros Hwf f rest Hf. cbn [encode app]. rewrite dec_S_datetime, dec_i64_rt by exact Hwf.
+  unfold RT. intros Hwf f d rest Hf Hd. cbn [encode app]. rewrite dec_S_datetime, dec_i64_rt by exact Hwf.
   rewrite len_cons, len_le. reflexivity.
 Qed.
 Lemma rt_float x : RT (PFloat x).
 Proof.
-  unfold RT. intros Hwf f rest Hf. cbn [encode app]. cbn [wf] in Hwf. rewrite dec_S_float.
+  unfold RT. intros Hwf f d rest Hf Hd. cbn [encode app]. cbn [wf] in Hwf. rewrite dec_S_float.
   rewrite len_cons, len_app, len_le.
   destruct (1 + (N.of_nat 8 + len rest) <? 9) eqn:E; [lia|].
   rewrite sub_cons1 by now rewrite len_le.
@@ -433,7 +456,7 @@ Proof.
 Qed.
 Lemma rt_str s : RT (PStr s).
 Proof.
-  unfold RT. intros Hwf f rest Hf. cbn [encode app]. cbn [wf] in Hwf. apply andb_prop in Hwf as [H1 H2].
+  unfold RT. intros Hwf f d rest Hf Hd. cbn [encode app]. cbn [wf] in Hwf. apply andb_prop in Hwf as [H1 H2].
   assert (Hs : len s < 4294967296) by (unfold two32' in H1; lia).
   rewrite dec_S_str, <- app_assoc, (dec_lenpref_rt _ _ _ _ Hs), H2.
   rewrite len_cons, len_app, len_le. f_equal. f_equal. lia.
@@ -451,17 +474,19 @@ Proof.
 Qed.
 Lemma rt_blob s : RT (PBlob s).
 Proof.
-  unfold RT. intros Hwf f rest Hf. apply wf_blob_len in Hwf. cbn [encode app].
+  unfold RT. intros Hwf f d rest Hf Hd. apply wf_blob_len in Hwf. cbn [encode app].
   rewrite dec_S_blob, <- app_assoc, (dec_lenpref_rt _ _ _ _ Hwf).
   rewrite len_cons, len_app, len_le. f_equal. f_equal. lia.
 Qed.
 Lemma rt_list l : Forall RT l -> RT (PList l).
 Proof.
-  unfold RT. intros H Hwf f rest Hf. apply wf_list_inv in Hwf as [Hl H2].
+  unfold RT. intros H Hwf f d rest Hf Hd. apply wf_list_inv in Hwf as [Hl H2].
   cbn [encode length] in Hf. rewrite app_length, le_length in Hf.
   cbn [encode app]. rewrite dec_S_list, <- app_assoc.
   rewrite len_cons, !len_app, len_le.
   destruct (1 + (N.of_nat 4 + (len (flat_map encode l) + len rest)) <? 5) eqn:E; [lia|].
+  rewrite too_deep_eq. assert (Hc : 1 <= cdepth (PList l)) by (cbn [cdepth]; lia).
+  destruct (pv_max_nesting <=? d) eqn:Ed; [lia|].
   rewrite sub_cons1 by now rewrite len_le.
   rewrite unle_le4 by exact Hl.
   change (pv_tag_list :: le 4 (len l) ++ flat_map encode l ++ rest) with ((pv_tag_list :: le 4 (len l)) ++ flat_map encode l ++ rest).
@@ -469,17 +494,20 @@ Proof.
   destruct f as [|f]; [lia|].
   rewrite list_loop_rt.
   - cbn [rev app]. f_equal. f_equal. rewrite !len_cons, !len_app, len_le. lia.
-  - intros x r Hin. rewrite Forall_forall in H. apply (H x Hin); [exact (forallb_In _ _ _ H2 Hin)|].
-    pose proof (flat_map_encode_len l x Hin). lia.
+  - intros x r Hin. rewrite Forall_forall in H. apply (H x Hin); [exact (forallb_In _ _ _ H2 Hin)| |].
+    + pose proof (flat_map_encode_len l x Hin). lia.
+    + pose proof (cdepth_list_in l x Hin). lia.
   - pose proof (flat_map_encode_count l). lia.
 Qed.
 Lemma rt_map m : Forall (fun kv => RT (snd kv)) m -> RT (PMap m).
 Proof.
-  unfold RT. intros H Hwf f rest Hf. apply wf_map_inv in Hwf as (Hl & H2 & H3).
+  unfold RT. intros H Hwf f d rest Hf Hd. apply wf_map_inv in Hwf as (Hl & H2 & H3).
   rewrite encode_map in *. cbn [length] in Hf. rewrite app_length, le_length in Hf.
   cbn [app]. rewrite dec_S_map, <- app_assoc.
   rewrite len_cons, !len_app, len_le.
   destruct (1 + (N.of_nat 4 + (len (flat_map enc_entry m) + len rest)) <? 5) eqn:E; [lia|].
+  rewrite too_deep_eq. assert (Hc : 1 <= cdepth (PMap m)) by (cbn [cdepth]; lia).
+  destruct (pv_max_nesting <=? d) eqn:Ed; [lia|].
   rewrite sub_cons1 by now rewrite len_le.
   rewrite unle_le4 by exact Hl.
   change (pv_tag_map :: le 4 (len m) ++ flat_map enc_entry m ++ rest) with ((pv_tag_map :: le 4 (len m)) ++ flat_map enc_entry m ++ rest).
@@ -488,8 +516,9 @@ Proof.
   rewrite map_loop_rt.
   - cbn [app]. f_equal. f_equal. rewrite !len_cons, !len_app, len_le. lia.
   - intros kx r Hin. rewrite Forall_forall in H. pose proof (forallb_In _ _ _ H3 Hin) as Hk. destruct kx as [k x].
-    apply andb_prop in Hk as [_ Hx]. apply (H (k, x) Hin); [exact Hx|].
-    pose proof (flat_map_entry_len m (k, x) Hin). cbn [snd] in *. lia.
+    apply andb_prop in Hk as [_ Hx]. apply (H (k, x) Hin); [exact Hx| |].
+    + pose proof (flat_map_entry_len m (k, x) Hin). cbn [snd] in *. lia.
+    + pose proof (cdepth_map_in m k x Hin). cbn [snd]. lia.
   - intros kx Hin. pose proof (forallb_In _ _ _ H3 Hin) as Hk. destruct kx as [k x].
     apply andb_prop in Hk as [Hk _]. apply andb_prop in Hk as [Ha Hb]. cbn [fst]. unfold two32' in Ha. split; [lia|exact Hb].
   - cbn [app]. exact H2.
@@ -501,34 +530,36 @@ Proof.
   apply pv_ind2; [exact rt_null|exact rt_bool|exact rt_int|exact rt_float|exact rt_str|exact rt_datetime|exact rt_blob|exact rt_list|exact rt_map].
 Qed.
 
-Theorem roundtrip v rest : wf v = true ->
+Theorem roundtrip v rest : wf v = true -> cdepth v <= pv_max_nesting ->
   dec_top (encode v ++ rest) = Ok (v, len (encode v)) /\ decode (encode v ++ rest) = Ok v.
 Proof.
-  intros Hwf. assert (H : dec_top (encode v ++ rest) = Ok (v, len (encode v))).
-  { unfold dec_top. apply dec_encode; [exact Hwf|]. rewrite app_length. lia. }
+  intros Hwf Hd. assert (H : dec_top (encode v ++ rest) = Ok (v, len (encode v))).
+  { unfold dec_top. apply dec_encode; [exact Hwf| |lia]. rewrite app_length. lia. }
   split; [exact H|]. unfold decode. now rewrite H.
 Qed.
 
 (* ---- p6: resources ---- *)
 
-Lemma cost_S f b : cost (S f) b =
+Lemma cost_S f d b : cost (S f) d b =
     match b with
     | [] => (0, 1)
     | ty :: _ =>
       if ty =? pv_tag_list then
         if len b <? 5 then (0, 1) else
+        if too_deep d then (0, 1) else
         match sub b 1 4 with
         | None => (0, 1)
         | Some l4 =>
-          let r := list_cost (dec f) (cost f) (S f) (unle l4) b 5 (0, 0) in
+          let r := list_cost (dec f (d + 1)) (cost f (d + 1)) (S f) (unle l4) b 5 (0, 0) in
           (list_request (unle l4) (len b - 5) + fst r, 1 + snd r)
         end
       else if ty =? pv_tag_map then
         if len b <? 5 then (0, 1) else
+        if too_deep d then (0, 1) else
         match sub b 1 4 with
         | None => (0, 1)
         | Some l4 =>
-          let r := map_cost (dec f) (cost f) (S f) (unle l4) b 5 (0, 0) in
+          let r := map_cost (dec f (d + 1)) (cost f (d + 1)) (S f) (unle l4) b 5 (0, 0) in
           (fst r, 1 + snd r)
         end
       else (0, 1)
@@ -568,22 +599,22 @@ Proof.
     apply IH; [lia|exact Hd].
 Qed.
 
-Lemma cost_depth fuel : forall b, 5 * snd (cost fuel b) <= len b + 5.
+Lemma cost_depth fuel : forall d b, 5 * snd (cost fuel d b) <= len b + 5.
 Proof.
-  induction fuel as [|f IH]; intros b; [cbn; lia|].
+  induction fuel as [|f IH]; intros d b; [cbn; lia|].
   rewrite cost_S. destruct b as [|ty t] eqn:Eb; [cbn; lia|]. rewrite <- Eb.
   destruct (ty =? pv_tag_list).
-  { destruct (len b <? 5) eqn:E; [cbn; lia|]. destruct (sub b 1 4); [|cbn; lia]. cbv zeta. cbn [snd].
-    pose proof (list_cost_depth (dec f) (cost f) b ((len b) / 5)) as H.
-    assert (Hr : forall rest, len rest + 5 <= len b -> snd (cost f rest) <= len b / 5).
-    { intros rest Hl. specialize (IH rest). apply N.div_le_lower_bound; lia. }
+  { destruct (len b <? 5) eqn:E; [cbn; lia|]. destruct (too_deep d); [cbn; lia|]. destruct (sub b 1 4); [|cbn; lia]. cbv zeta. cbn [snd].
+    pose proof (list_cost_depth (dec f (d + 1)) (cost f (d + 1)) b ((len b) / 5)) as H.
+    assert (Hr : forall rest, len rest + 5 <= len b -> snd (cost f (d + 1) rest) <= len b / 5).
+    { intros rest Hl. specialize (IH (d + 1) rest). apply N.div_le_lower_bound; lia. }
     specialize (H Hr (S f) (unle b0) 5 (0, 0) ltac:(lia) ltac:(cbn; lia)).
     pose proof (N.mul_div_le (len b) 5 ltac:(lia)). lia. }
   destruct (ty =? pv_tag_map).
-  { destruct (len b <? 5) eqn:E; [cbn; lia|]. destruct (sub b 1 4); [|cbn; lia]. cbv zeta. cbn [snd].
-    pose proof (map_cost_depth (dec f) (cost f) b ((len b) / 5)) as H.
-    assert (Hr : forall rest, len rest + 5 <= len b -> snd (cost f rest) <= len b / 5).
-    { intros rest Hl. specialize (IH rest). apply N.div_le_lower_bound; lia. }
+  { destruct (len b <? 5) eqn:E; [cbn; lia|]. destruct (too_deep d); [cbn; lia|]. destruct (sub b 1 4); [|cbn; lia]. cbv zeta. cbn [snd].
+    pose proof (map_cost_depth (dec f (d + 1)) (cost f (d + 1)) b ((len b) / 5)) as H.
+    assert (Hr : forall rest, len rest + 5 <= len b -> snd (cost f (d + 1) rest) <= len b / 5).
+    { intros rest Hl. specialize (IH (d + 1) rest). apply N.div_le_lower_bound; lia. }
     specialize (H Hr (S f) (unle b0) 5 (0, 0) ltac:(lia) ltac:(cbn; lia)).
     pose proof (N.mul_div_le (len b) 5 ltac:(lia)). lia. }
   cbn. lia.
@@ -591,6 +622,30 @@ Qed.
 
 Theorem depth_bounded b : 5 * depth b <= len b + 5.
 Proof. apply cost_depth. Qed.
+
+(* with the nesting limit: the recursion never goes deeper than MAX_PROPERTY_NESTING + 1 calls *)
+Lemma cost_depth_limit fuel : forall d b, d <= pv_max_nesting -> snd (cost fuel d b) + d <= pv_max_nesting + 1.
+Proof.
+  induction fuel as [|f IH]; intros d b Hd; [cbn [cost snd]; lia|].
+  rewrite cost_S. destruct b as [|ty t] eqn:Eb; [cbn [snd]; lia|]. rewrite <- Eb.
+  destruct (ty =? pv_tag_list).
+  { destruct (len b <? 5) eqn:E; [cbn [snd]; lia|]. rewrite too_deep_eq.
+    destruct (pv_max_nesting <=? d) eqn:Ed; [cbn [snd]; lia|]. destruct (sub b 1 4); [|cbn [snd]; lia]. cbv zeta. cbn [snd].
+    pose proof (list_cost_depth (dec f (d + 1)) (cost f (d + 1)) b (pv_max_nesting - d)) as H.
+    assert (Hr : forall rest, len rest + 5 <= len b -> snd (cost f (d + 1) rest) <= pv_max_nesting - d).
+    { intros rest Hl. specialize (IH (d + 1) rest ltac:(lia)). lia. }
+    specialize (H Hr (S f) (unle b0) 5 (0, 0) ltac:(lia) ltac:(cbn [snd]; lia)). lia. }
+  destruct (ty =? pv_tag_map).
+  { destruct (len b <? 5) eqn:E; [cbn [snd]; lia|]. rewrite too_deep_eq.
+    destruct (pv_max_nesting <=? d) eqn:Ed; [cbn [snd]; lia|]. destruct (sub b 1 4); [|cbn [snd]; lia]. cbv zeta. cbn [snd].
+    pose proof (map_cost_depth (dec f (d + 1)) (cost f (d + 1)) b (pv_max_nesting - d)) as H.
+    assert (Hr : forall rest, len rest + 5 <= len b -> snd (cost f (d + 1) rest) <= pv_max_nesting - d).
+    { intros rest Hl. specialize (IH (d + 1) rest ltac:(lia)). lia. }
+    specialize (H Hr (S f) (unle b0) 5 (0, 0) ltac:(lia) ltac:(cbn [snd]; lia)). lia. }
+  cbn [snd]. lia.
+Qed.
+Theorem depth_limited b : depth b <= pv_max_nesting + 1.
+Proof. pose proof (cost_depth_limit (S (length b)) 0 b ltac:(lia)). unfold depth. lia. Qed.
 
 (* ---- p7: resources ---- *)
 
@@ -647,33 +702,98 @@ Proof.
     cbn [fst] in IH. destruct (map_loop rec k (count - 1) b (pos + 4 + unle kl + c) (map_insert key item m)) as [[v cf]| | |]; lia.
 Qed.
 
-Lemma cost_alloc fuel : forall b, (length b < fuel)%nat -> abound b (dec fuel b) (fst (cost fuel b)).
+Lemma cost_alloc fuel : forall d b, (length b < fuel)%nat -> abound b (dec fuel d b) (fst (cost fuel d b)).
 Proof.
-  induction fuel as [|f IH]; intros b Hf; [lia|].
-  pose proof (dec_good (S f) b Hf) as (_ & _ & Hgood).
-  assert (Hrec : forall rest, len rest < len b -> good rest (dec f rest) /\ abound rest (dec f rest) (fst (cost f rest))).
+  induction fuel as [|f IH]; intros d b Hf; [lia|].
+  pose proof (dec_good (S f) d b Hf) as (_ & _ & Hgood).
+  assert (Hrec : forall rest, len rest < len b -> good rest (dec f (d + 1) rest) /\ abound rest (dec f (d + 1) rest) (fst (cost f (d + 1) rest))).
   { intros rest Hl. split; [apply dec_good|apply IH]; unfold len in *; lia. }
   rewrite cost_S. destruct b as [|ty t] eqn:Eb; [cbn; lia|].
   destruct (ty =? pv_tag_list) eqn:EL.
   { apply N.eqb_eq in EL. subst ty. rewrite dec_S_list. rewrite <- Eb in *.
-    destruct (len b <? 5) eqn:E; [cbn; lia|].
+    destruct (len b <? 5) eqn:E; [cbn; lia|]. destruct (too_deep d); [cbn; lia|].
     destruct (sub_total b 1 4) as (l4 & Hl4 & _); [lia|]. rewrite Hl4. cbv zeta. cbn [fst].
     rewrite list_request_0.
-    pose proof (list_cost_alloc (dec f) (cost f) b Hrec (S f) (unle l4) 5 [] (0, 0) ltac:(lia)) as H.
-    unfold abound. destruct (list_loop (dec f) (S f) (unle l4) b 5 []) as [[v c]| | |]; cbn [fst] in H; lia. }
+    pose proof (list_cost_alloc (dec f (d + 1)) (cost f (d + 1)) b Hrec (S f) (unle l4) 5 [] (0, 0) ltac:(lia)) as H.
+    unfold abound. destruct (list_loop (dec f (d + 1)) (S f) (unle l4) b 5 []) as [[v c]| | |]; cbn [fst] in H; lia. }
   destruct (ty =? pv_tag_map) eqn:EM.
   { apply N.eqb_eq in EM. subst ty. rewrite dec_S_map. rewrite <- Eb in *.
-    destruct (len b <? 5) eqn:E; [cbn; lia|].
+    destruct (len b <? 5) eqn:E; [cbn; lia|]. destruct (too_deep d); [cbn; lia|].
     destruct (sub_total b 1 4) as (l4 & Hl4 & _); [lia|]. rewrite Hl4. cbv zeta. cbn [fst].
-    pose proof (map_cost_alloc (dec f) (cost f) b Hrec (S f) (unle l4) 5 [] (0, 0) ltac:(lia)) as H.
-    unfold abound. destruct (map_loop (dec f) (S f) (unle l4) b 5 []) as [[v c]| | |]; cbn [fst] in H; lia. }
-  cbn [fst]. unfold abound. destruct (dec (S f) (ty :: t)) as [[v c]| | |]; try lia.
+    pose proof (map_cost_alloc (dec f (d + 1)) (cost f (d + 1)) b Hrec (S f) (unle l4) 5 [] (0, 0) ltac:(lia)) as H.
+    unfold abound. destruct (map_loop (dec f (d + 1)) (S f) (unle l4) b 5 []) as [[v c]| | |]; cbn [fst] in H; lia. }
+  cbn [fst]. unfold abound. destruct (dec (S f) d (ty :: t)) as [[v c]| | |]; try lia.
   specialize (Hgood _ _ eq_refl). lia.
 Qed.
 
 Theorem alloc_bounded b : alloc_request b <= len b.
 Proof.
-  pose proof (cost_alloc (S (length b)) b ltac:(lia)) as H. unfold abound in H. fold (dec_top b) in H.
+  pose proof (cost_alloc (S (length b)) 0 b ltac:(lia)) as H. unfold abound in H. fold (dec_top b) in H.
   pose proof (dec_top_good b) as (_ & _ & Hg). unfold alloc_request.
   destruct (dec_top b) as [[v c]| | |]; try lia. specialize (Hg _ _ eq_refl). lia.
+Qed.
+
+(* ---- nested headers: the depth bound is reached; beyond the limit decoding is an error ---- *)
+
+(* k nested one-element list headers around a Null *)
+Fixpoint nest (k : nat) : bytes :=
+  match k with O => [pv_tag_null] | S k' => [pv_tag_list; 1; 0; 0; 0] ++ nest k' end.
+
+Lemma len_nest k : len (nest k) = 5 * N.of_nat k + 1.
+Proof. induction k as [|k IH]; [reflexivity|]. cbn [nest]. rewrite len_app, IH. change (len [pv_tag_list; 1; 0; 0; 0]) with 5. lia. Qed.
+
+Lemma cost_nest : forall k f d, (k < f)%nat -> d + N.of_nat k <= pv_max_nesting ->
+  snd (cost f d (nest k)) = N.of_nat k + 1.
+Proof.
+  induction k as [|k IH]; intros f d Hf Hd; (destruct f as [|f]; [lia|]).
+  - reflexivity.
+  - rewrite cost_S. cbn [nest app].
+    replace (pv_tag_list =? pv_tag_list) with true by (symmetry; apply N.eqb_refl).
+    change (pv_tag_list :: 1 :: 0 :: 0 :: 0 :: nest k) with ([pv_tag_list; 1; 0; 0; 0] ++ nest k).
+    rewrite len_app. change (len [pv_tag_list; 1; 0; 0; 0]) with 5.
+    destruct (5 + len (nest k) <? 5) eqn:E; [lia|].
+    rewrite too_deep_eq. destruct (pv_max_nesting <=? d) eqn:Ed; [lia|].
+    change ([pv_tag_list; 1; 0; 0; 0] ++ nest k) with ([pv_tag_list] ++ [1; 0; 0; 0] ++ nest k).
+    rewrite (sub_app [pv_tag_list] [1; 0; 0; 0] (nest k) 1 4) by reflexivity.
+    change (unle [1; 0; 0; 0]) with 1. cbv zeta.
+    change ([pv_tag_list] ++ [1; 0; 0; 0] ++ nest k) with ([pv_tag_list; 1; 0; 0; 0] ++ nest k).
+    cbn [list_cost]. change (1 =? 0) with false. cbv iota.
+    rewrite (from_app [pv_tag_list; 1; 0; 0; 0] (nest k) 5) by reflexivity. cbv zeta.
+    specialize (IH f (d + 1) ltac:(lia) ltac:(lia)).
+    destruct (dec f (d + 1) (nest k)) as [[v c]| | |]; cbn [snd fst].
+    + change (1 - 1) with 0. destruct f; cbn [list_cost N.eqb snd]; rewrite IH; lia.
+    + rewrite IH. lia.
+    + rewrite IH. lia.
+    + rewrite IH. lia.
+Qed.
+
+(* the depth bound MAX_PROPERTY_NESTING + 1 is reached, one level per 5 bytes below it *)
+Theorem depth_nest k : N.of_nat k <= pv_max_nesting -> depth (nest k) = N.of_nat k + 1.
+Proof.
+  intros H. unfold depth. apply cost_nest; [|lia].
+  pose proof (len_nest k). unfold len in *. lia.
+Qed.
+
+(* beyond the limit the decoder answers with an error instead of recursing further *)
+Lemma dec_nest_deep : forall k f d, (k < f)%nat -> pv_max_nesting < d + N.of_nat k -> d <= pv_max_nesting ->
+  dec f d (nest k) = Err ETooDeep.
+Proof.
+  induction k as [|k IH]; intros f d Hf Hd Hd2; (destruct f as [|f]; [lia|]); [lia|].
+  cbn [nest app]. rewrite dec_S_list.
+  change (pv_tag_list :: 1 :: 0 :: 0 :: 0 :: nest k) with ([pv_tag_list; 1; 0; 0; 0] ++ nest k).
+  rewrite len_app. change (len [pv_tag_list; 1; 0; 0; 0]) with 5.
+  destruct (5 + len (nest k) <? 5) eqn:E; [lia|].
+  rewrite too_deep_eq. destruct (pv_max_nesting <=? d) eqn:Ed; [reflexivity|].
+  change ([pv_tag_list; 1; 0; 0; 0] ++ nest k) with ([pv_tag_list] ++ [1; 0; 0; 0] ++ nest k).
+  rewrite (sub_app [pv_tag_list] [1; 0; 0; 0] (nest k) 1 4) by reflexivity.
+  change (unle [1; 0; 0; 0]) with 1.
+  change ([pv_tag_list] ++ [1; 0; 0; 0] ++ nest k) with ([pv_tag_list; 1; 0; 0; 0] ++ nest k).
+  cbn [list_loop]. change (1 =? 0) with false. cbv iota.
+  rewrite (from_app [pv_tag_list; 1; 0; 0; 0] (nest k) 5) by reflexivity.
+  rewrite (IH f (d + 1)) by lia. reflexivity.
+Qed.
+Theorem decode_nest_deep k : pv_max_nesting < N.of_nat k -> decode (nest k) = Err ETooDeep.
+Proof.
+  intros H. unfold decode, dec_top. rewrite dec_nest_deep; [reflexivity| |lia|lia].
+  pose proof (len_nest k). unfold len in *. lia.
 Qed.
